@@ -3,6 +3,7 @@ CONSTANTS
   Reqs <- Reqs2
   Parts <- P11
   RegAfter <- RegAfterWrite
+  KeyOf <- IdKey
   Dups = {3}
   LookupAtomic = TRUE
   FailIdx = {}
